@@ -1,6 +1,7 @@
 import Anysystem.Proofs.SimNetThms
 import Anysystem.Proofs.SimRunThms
 import Anysystem.Proofs.SimDelivery
+import Anysystem.Proofs.SimDeliveryDup
 /-!
 # C05 — The simulated network delivers only what link state and fault rates allow
 
@@ -46,5 +47,27 @@ namespace Anysystem
 #check @Sim.ExactFate.sendLocal
 #check @Sim.every_send_has_one_fate
 #check @Sim.delivered_once_if_not_dropped
+
+/- the same for an ARBITRARY duplication rate (`Proofs/SimDeliveryDup.lean`): the invariant `FateBounds` — every issued message
+   id is either dropped when it was sent (one `dropped` entry, no copy, never received) or has no `dropped` entry and between one
+   and three copies received or still queued — holds initially and is kept by every send (via `SendFate`), step and `sendLocal`
+   while no node is down; hence, when the queue has run dry, every message was dropped once and never received, or received one
+   to three times and never recorded as dropped; with drop rate zero and no link control on (`NoLoss`; the settings do not change
+   during the run: `stepUntilNoEvents_cfg`) every message issued during the run is received at least once.  `ExactFate` is the
+   special case (`FateBounds.of_exact`, `every_send_has_one_fate_of_dup`); `SimDeliveryDupDemo`: a message delivered three times. -/
+#check @Sim.FateBounds.init
+#check @Sim.FateBounds.of_exact
+#check @Sim.FateBounds.sendMessage
+#check @Sim.FateBounds.step
+#check @Sim.FateBounds.steps
+#check @Sim.FateBounds.sendLocal
+#check @Sim.FateBounds.stepUntilNoEvents
+#check @Sim.stepUntilNoEvents_cfg
+#check @Sim.every_send_has_fate_dup
+#check @Sim.delivered_if_not_dropped_dup
+#check @Sim.drop_rate_zero_all_delivered
+#check @Sim.every_send_has_one_fate_of_dup
+#check @SimDeliveryDupDemo.d3_results
+#check @SimDeliveryDupDemo.d3_three
 
 end Anysystem
